@@ -134,7 +134,10 @@ CHECKS = {
         design='5 C19'),
     'C11': dict(
         text='Sequential state-machine model of BasePort/BaseInput/BaseOutput/EchoPort/MultiPort against an environment script; theorems: '
-             'close idempotent, device released exactly once after the 32 reset messages iff autoreset, after close send is ValueError and '
+             'close idempotent, device released exactly once after the 32 reset messages iff autoreset (and exactly once also when the device '
+             'stops accepting sends part-way through the resets), C11_iter_close_anywhere: for EVERY device script (self-close before, between or '
+             'inside receive calls, with or without arrivals in the same step) iteration never raises, hands out every message taken in, in order, '
+             'exactly once, ends closed and drained, and does end whenever the device closes; after close send is ValueError and '
              'NO operation history reaches the device again, iteration over a closed port yields exactly the queued messages and ends '
              'normally then poll is None, poll never sleeps, blocking receive returns after exactly r sleep rounds when the first message '
              'arrives in round r, MultiPort non-blocking receive total and blocking receive prompt. Correspondence on real port classes with a '
